@@ -74,6 +74,14 @@ func c16Zone(version int, failing int) zoneh.Universe {
 		}
 		u[zoneh.Key{Name: "c.example", Type: 65}] = zoneh.Resp{Fail: true}
 	}
+	if failing == 3 {
+		// the HTTPS records have been withdrawn (NXDOMAIN for type 65); addresses are still served
+		for k := range u {
+			if k.Type == 65 {
+				u[k] = zoneh.Resp{RCode: 3}
+			}
+		}
+	}
 	if failing == 2 {
 		u[zoneh.Key{Name: "c.example", Type: 65}] = zoneh.Resp{}
 		for k := range u {
@@ -142,7 +150,7 @@ func genC16(env *core.Env, emit func(core.Case)) {
 	ech.VerifSetClock(clock.now)
 	defer ech.VerifSetClock(nil)
 	srv.Now = func() int64 { clock.mu.Lock(); defer clock.mu.Unlock(); return clock.sec }
-	alphabet := []string{"ra", "rb", "rc", "adv3", "adv8", "adv301", "zone", "fail", "rcode"}
+	alphabet := []string{"ra", "rb", "rc", "adv3", "adv8", "adv301", "zone", "fail", "rcode", "nx65"}
 	names := map[string]string{"ra": "a.example", "rb": "b.example", "rc": "c.example"}
 	histCount := 0
 	runHistory := func(hist []string, stream string) {
@@ -189,6 +197,13 @@ func genC16(env *core.Env, emit func(core.Case)) {
 					failing = 0
 				} else {
 					failing = 1
+				}
+				srv.Set(c16Zone(version, failing))
+			case "nx65":
+				if failing == 3 {
+					failing = 0
+				} else {
+					failing = 3
 				}
 				srv.Set(c16Zone(version, failing))
 			case "rcode":
@@ -281,7 +296,7 @@ func genC16(env *core.Env, emit func(core.Case)) {
 		}
 	}
 	rec(nil)
-	env.Exhaustive(fmt.Sprintf("all histories of length <= %d over the 9-letter alphabet that end in a resolve", L))
+	env.Exhaustive(fmt.Sprintf("all histories of length <= %d over the 10-letter alphabet that end in a resolve", L))
 	for i := 0; i < env.Pick(300, 2500); i++ {
 		n := 6 + r.IntN(8)
 		var h []string
@@ -294,6 +309,57 @@ func genC16(env *core.Env, emit func(core.Case)) {
 		}
 		h = append(h, alphabet[r.IntN(3)])
 		runHistory(h, "random")
+	}
+	// time passes DURING a call: the HTTPS lookup of b.example (TTL 0, always upstream) takes three seconds,
+	// during which the cached A record of the same name (TTL 5, four seconds old) expires. Each lookup of
+	// the call looks at the clock as it is then.
+	for rep := 0; rep < 3; rep++ {
+		rs, err := ech.NewResolver(srv.URL())
+		if err != nil {
+			panic(err)
+		}
+		srv.SetHeaders(nil)
+		srv.Set(c16Zone(1, 0))
+		srv.TakeLog()
+		rs.Resolve(context.Background(), "b.example")
+		clock.mu.Lock()
+		clock.sec += 4
+		clock.mu.Unlock()
+		srv.Set(c16Zone(2, 0))
+		srv.TakeLog()
+		srv.Mu().Lock()
+		srv.OnQuery = func(name string, typ int) {
+			if typ == 65 {
+				clock.mu.Lock()
+				clock.sec += 3
+				clock.mu.Unlock()
+			}
+		}
+		srv.Mu().Unlock()
+		res, rerr := rs.Resolve(context.Background(), "b.example")
+		srv.Mu().Lock()
+		srv.OnQuery = nil
+		srv.Mu().Unlock()
+		askedA := false
+		for _, q := range srv.TakeLog() {
+			if q.Name == "b.example" && q.Type == 1 {
+				askedA = true
+			}
+		}
+		w := ""
+		switch {
+		case rerr != nil:
+			w = "Resolve failed: " + rerr.Error()
+		case !askedA:
+			w = "the A record of b.example (TTL 5) was 7 s old when the call looked it up (the HTTPS lookup before it took 3 s), and was served from the cache"
+		case len(res.Address) == 0 || res.Address[0].To4() == nil || res.Address[0].To4()[1] != 2:
+			w = fmt.Sprintf("addresses %v are not those of the current zone", res.Address)
+		}
+		emit(core.Case{Name: fmt.Sprintf("slow-upstream/%d", rep), Stream: "slow-upstream", Key: "slow-upstream", Sig: "slow-upstream",
+			Ops:    []core.Op{{Kind: 'X', Note: "an entry that expires while an earlier lookup of the same call is on the wire is not served", Want: w}},
+			Sample: map[string]any{"rep": rep}})
+		env.Count("slow-upstream")
+		srv.Set(c16Zone(1, 0))
 	}
 	// concurrent use (data races are the race detector's job; here: no panic, consistent results)
 	genC16R(env, emit)
